@@ -135,33 +135,5 @@ pub closed spec fn mappings(&self) -> Mappings {
 
 }
 
-/// join of the rendered elements == printer's list form
-pub proof fn lemma_join_is_pp_list(m: Mappings, ts: Seq<TypeStructure>, strs: Seq<String>, n: int)
-    requires
-        0 <= n <= ts.len(), strs.len() == ts.len(),
-        forall|i: int| 0 <= i < ts.len() ==> (#[trigger] strs[i])@ == pp(den(m, ts[i])),
-    ensures
-        join_spec(strs.take(n), ", "@) == pp_list(den_list(m, ts.take(n))),
-        den_list(m, ts.take(n)).len() == n,
-    decreases n,
-{
-    if n == 0 {
-        assert(ts.take(0).len() == 0);
-    } else {
-        lemma_join_is_pp_list(m, ts, strs, n - 1);
-        assert(strs.take(n).drop_last() =~= strs.take(n - 1));
-        assert(ts.take(n).drop_last() =~= ts.take(n - 1));
-        assert(strs.take(n).last() == strs[n - 1]);
-        assert(ts.take(n).last() == ts[n - 1]);
-        let dl = den_list(m, ts.take(n));
-        assert(dl == den_list(m, ts.take(n - 1)).push(den(m, ts[n - 1])));
-        assert(dl.drop_last() =~= den_list(m, ts.take(n - 1)));
-        assert(dl.last() == den(m, ts[n - 1]));
-        if n == 1 {
-            assert(dl[0] == den(m, ts[0]));
-        }
-    }
-}
-
 } // verus!
 fn main() {}
